@@ -354,6 +354,15 @@ def _parse_agg(expr: str) -> Optional[Tuple[str, Optional[str]]]:
     return None
 
 
+def _argval(row, arg):
+    """Value of an aggregate's argument in a row: a column, a numeric literal ('(1).sum()') or 1 for _size()."""
+    if arg is None:
+        return 1
+    if arg.lstrip("-").isdigit():
+        return int(arg)
+    return row[arg]
+
+
 def _expr_columns(expr: str, cols: Sequence[str]) -> List[str]:
     toks = set(re.findall(r"[A-Za-z_]\w*", expr))
     return [c for c in cols if c in toks]
@@ -740,7 +749,7 @@ class Model:
                     seq = [r["__i"] for r in srt]
                 else:
                     seq = list(idxs)
-                vals = [rows[j][arg] if arg is not None else 1 for j in seq]
+                vals = [_argval(rows[j], arg) for j in seq]
                 if meth == "_row_number":
                     for pos, j in enumerate(seq):
                         out[j][k] = pos + 1
@@ -806,7 +815,7 @@ class Model:
                 if pa is None:
                     raise ModelRaise("model: unsupported aggregate " + e)
                 meth, arg = pa
-                vals = [r[arg] if arg is not None else 1 for r in grows]
+                vals = [_argval(r, arg) for r in grows]
                 nr[k] = _agg(meth, vals, be, len(grows), ungrouped_project=(not by))
                 if be == "polars" and arg is not None and types.get(arg) == "null" and meth == "sum":
                     nr[k] = None  # sum over a Null-typed column
@@ -968,6 +977,8 @@ def _oset(s):
 
 
 def _expr_type(e: str, types: Dict[str, str]) -> str:
+    if "if_else" in e and "'" in e:
+        return "str"
     if any(t in e for t in ("==", "<=", ">=", "!=", "is_null", " > ", " < ")) and "if_else" not in e:
         return "bool"
     return "float"
